@@ -175,7 +175,7 @@ PROPS = {    'C01': dict(gen_targets=['Producer', 'Utils', 'Reader', 'Routes'], 
     'C05': dict(gen_targets=['Geometry', 'Reader', 'Version', 'Utils', 'Routes', 'Headers'], pins=pins_of('C05') + ['utils.Geometry3d.__init__'] + ROUTES_PINS, harness=['geometry.py', 'routes.py'],
                 allowed_axioms=FLOAT_PRIMS + STDLIB_FLOAT_REAL_AXIOMS,
                 coqchk_allowed_prefixes=['Coq.Reals.ClassicalDedekindReals.sig_not_dec', 'Coq.Reals.ClassicalDedekindReals.sig_forall_dec', 'Coq.Logic.FunctionalExtensionality.functional_extensionality_dep', 'Coq.Logic.Classical_Prop.classic'],
-                coqchk_skip=['Props/C05b.v'],
+                coqchk_skip=['Props/C05.v', 'Props/C05a.v', 'Props/C05b.v'],      # 36 min (the vm_compute sweeps, re-evaluated by the checker's own reduction) and 44 min (Flocq, Reals): logs of the manual runs in findings/coqchk_c05.log, coqchk_c05b.log
                 trusted=ROUTES_TRUSTED + ['tools/genx_geometry.py (fail-closed extraction of the geometry fields of make_header, gen_coord_list, _parse_coordinates, the structured / 2D flags)',
                          'Coq primitive floats (PrimFloat) and 63-bit integers (Uint63) as the model of binary64: kernel primitives listed by Print Assumptions; Props/C05.v and C05a.v use them by vm_compute only (no axiom); Props/C05b.v additionally depends on axioms DECLARED BY THE STANDARD LIBRARY: Coq.Floats.FloatAxioms (the IEEE specification of each primitive operation: *_spec, Prim2SF/SF2Prim), Coq.Numbers.Cyclic.Int63.Uint63 (*_spec of the primitive integers), the classical real numbers (ClassicalDedekindReals.sig_forall_dec, sig_not_dec), Classical_Prop.classic and FunctionalExtensionality.functional_extensionality_dep (through Flocq / Reals); none is declared by this development',
                          'Flocq 4 (IEEE754.PrimFloat: Prim2B and the *_equiv lemmas; Core: rounding error bounds) as installed',
